@@ -1564,7 +1564,125 @@ def cli_flow_table(prog: Program) -> RuleResult:
     return res
 
 
+# ---------------------------------------------------------------------------
+# CANDIDATE-GUARDS
+
+FILL_FUNCTIONS = [
+    ("compute.reconciliation", "_compute_thl_table"),
+    ("compute.reconciliation", "_compute_thl_try_speciation"),
+    ("compute.reconciliation", "_compute_thl_try_duplication_transfer"),
+    ("compute.super_reconciliation", "_compute_spfs_table"),
+    ("compute.super_reconciliation", "_compute_spfs_entry"),
+    ("compute.unordered_super_reconciliation", "_compute_uspfs_table"),
+    ("compute.unordered_super_reconciliation", "_compute_uspfs_entry"),
+]
+ORDER_PREDICATES = {"is_ancestor_of", "is_strict_ancestor_of", "is_comparable"}
+
+
+def _guard_kind(fn: ast.AST, test: ast.AST, depth: int = 0) -> Optional[str]:
+    """Kind of a guard that cannot exclude a finite valid candidate, or None."""
+    if depth > 4:
+        return None
+    if isinstance(test, ast.UnaryOp) and isinstance(test.op, ast.Not):
+        return _guard_kind(fn, test.operand, depth + 1)
+    if isinstance(test, ast.BoolOp):
+        kinds = [_guard_kind(fn, v, depth + 1) for v in test.values]
+        return "+".join(sorted(set(kinds))) if all(kinds) else None
+    if isinstance(test, ast.Call) and isinstance(test.func, ast.Attribute):
+        if test.func.attr == "is_leaf" and not test.args:
+            return "leaf test"
+        if test.func.attr in ORDER_PREDICATES:
+            return "order predicate"
+        if test.func.attr == "is_infinite":
+            return "infinity test"
+    if isinstance(test, ast.Call) and dotted(test.func) == "is_infinite":
+        return "infinity test"
+    if isinstance(test, ast.Name):
+        defs = [a for a in walk_no_nested(fn) if isinstance(a, ast.Assign) and any(isinstance(t, ast.Name) and t.id == test.id for t in a.targets)]
+        if defs and all(_guard_kind(fn, a.value, depth + 1) for a in defs):
+            return _guard_kind(fn, defs[0].value, depth + 1)
+        return None
+    if isinstance(test, ast.Compare) and len(test.ops) == 1:
+        sides = [test.left, test.comparators[0]]
+        for a, b in (sides, sides[::-1]):
+            if isinstance(a, ast.Name) and isinstance(b, (ast.Constant, ast.UnaryOp)):
+                defs = [d for d in walk_no_nested(fn) if isinstance(d, ast.Assign) and any(isinstance(t, ast.Name) and t.id == a.id for t in d.targets)]
+                if defs and all(isinstance(d.value, ast.Call) and (dotted(d.value.func) or "").endswith("subseq_segment_dist") for d in defs):
+                    return "sentinel test"
+    return None
+
+
+def _dominating_tests(fn: ast.AST, node: ast.AST) -> List[Tuple[ast.AST, bool]]:
+    """`guards` plus the early exits (`if T: continue / return`) that precede the statement in its enclosing blocks."""
+    out = list(guards(fn, node))
+    cur = node
+    parents: Dict[int, ast.AST] = {}
+    for parent in ast.walk(fn):
+        for child in ast.iter_child_nodes(parent):
+            parents[id(child)] = parent
+    while cur is not fn and id(cur) in parents:
+        parent = parents[id(cur)]
+        for fld in ("body", "orelse"):
+            block = getattr(parent, fld, None)
+            if isinstance(block, list) and any(st is cur for st in block):
+                for st in block:
+                    if st is cur:
+                        break
+                    if isinstance(st, ast.If) and not st.orelse and always_exits(st.body):
+                        out.append((st.test, False))
+        cur = parent
+    return out
+
+
+def candidate_guards(prog: Program) -> RuleResult:
+    res = RuleResult(
+        "CANDIDATE-GUARDS",
+        "in the table-filling functions of the three solvers every test that dominates a candidate (an `update` of "
+        "an aggregate or table entry, a table store, a call of a fill helper) is of a kind that cannot exclude a "
+        "finite valid candidate: a leaf test, an ancestor-order predicate between the species involved, the -1 "
+        "sentinel of subseq_segment_dist, an infinity test (or a local bound to one of these).  Any other guard is "
+        "a pruning argument (`a speciation can only happen at the covering species`, `a family no leaf carries`) - "
+        "such arguments are where candidates that matter get lost",
+    )
+    n = 0
+    for modname, qual in FILL_FUNCTIONS:
+        if not prog.has_func(modname, qual):
+            raise AnalysisError(f"fill function {modname}:{qual} not found")
+        mod = prog.module(modname)
+        fn = prog.func(modname, qual)
+        sinks: List[ast.AST] = []
+        for node in walk_no_nested(fn):
+            if isinstance(node, ast.Call):
+                if isinstance(node.func, ast.Attribute) and node.func.attr == "update":
+                    sinks.append(node)
+                elif isinstance(node.func, ast.Name) and node.func.id.startswith("_compute_") and resolve_callee(prog, mod, node.func) is not None:
+                    sinks.append(node)
+            elif isinstance(node, ast.Assign) and isinstance(node.targets[0], ast.Subscript) and isinstance(node.value, ast.Call) and (dotted(node.value.func) or "").endswith("Candidate"):
+                sinks.append(node)
+        construct = f"{modname}:{qual}/candidate-guards"
+        bad = None
+        kinds: Set[str] = set()
+        for sink in sinks:
+            for test, _pol in _dominating_tests(fn, sink):
+                kind = _guard_kind(fn, test)
+                if kind is None:
+                    bad = (sink, test)
+                    break
+                kinds.add(kind)
+            if bad:
+                break
+        n += len(sinks)
+        if bad:
+            res.fail(construct, f"the candidate `{short(bad[0], 60)}` is only offered when `{short(bad[1], 90)}`: that is not a leaf / order / sentinel / infinity test, i.e. a pruning argument", mod, bad[0])
+        else:
+            res.ok(construct, f"{len(sinks)} candidate site(s); guards: {', '.join(sorted(kinds)) or 'none'}")
+    if n < 20:
+        raise AnalysisError(f"CANDIDATE-GUARDS: only {n} candidate sites found in the fill functions")
+    return res
+
+
 RULES = {
+    "CANDIDATE-GUARDS": candidate_guards,
     "CLI-FLOW-TABLE": cli_flow_table,
     "LOSS-WALK": loss_walk,
     "SET-ALGEBRA-ARGS": set_algebra_args,
